@@ -228,6 +228,9 @@ func main() {
 		mk("userns", "apparmor", "DENIED", "operation", "userns_create", "class", "namespace", "info", "Userns create restricted - failed to find unprivileged_userns profile", "=error", "-13", "profile", "prog", "comm", "prog", "requested", "userns_create", "denied", "userns_create"),
 		mk("rlimit", "apparmor", "DENIED", "operation", "setrlimit", "class", "rlimits", "profile", "prog", "comm", "prog", "rlimit", "nofile", "=value", "1024"),
 		mk("change_onexec", "apparmor", "DENIED", "operation", "change_onexec", "class", "file", "info", "label not found", "=error", "-2", "profile", "prog", "name", "other", "comm", "prog", "target", "other"),
+		// (regression hunt) a socket reached through a file descriptor: the operation is a file_ one, the record is a network record
+		mk("net", "apparmor", "DENIED", "operation", "file_inherit", "class", "net", "profile", "prog", "comm", "prog", "family", "inet", "sock_type", "stream", "=protocol", "6", "requested_mask", "send receive", "denied_mask", "send receive"),
+		mk("net", "apparmor", "DENIED", "operation", "file_perm", "class", "net", "profile", "prog", "comm", "prog", "family", "netlink", "sock_type", "raw", "=protocol", "0", "requested_mask", "send", "denied_mask", "send"),
 		// (third hunt) the same request made with change_profile(2): no requested_mask, the target is the name
 		mk("change_profile", "apparmor", "DENIED", "operation", "change_profile", "class", "file", "info", "label not found", "=error", "-2", "profile", "prog", "name", "other2", "comm", "prog"),
 		// the nice limit is logged as the kernel's value (20 - nice): 30 stands for nice -10, 10 for nice 10
@@ -261,6 +264,9 @@ func main() {
 	w.Encode(process(fmt.Sprintf("rlimit-two-%d", n),
 		mk("rlimit-two", "apparmor", "DENIED", "operation", "setrlimit", "class", "rlimits", "profile", "prog", "comm", "prog", "rlimit", "nofile", "=value", "65536"),
 		mk("rlimit-two", "apparmor", "DENIED", "operation", "setrlimit", "class", "rlimits", "profile", "prog", "comm", "prog", "rlimit", "nofile", "=value", "8192")))
+	// (regression hunt) ... and so is the name of a link whose lookup failed (no target in the record): the name is below the root too
+	n++
+	w.Encode(process(fmt.Sprintf("link-disconnected-%d", n), fileRec("DENIED", "link", "tmp/foo", "l", "1000", "1000", "info", "Failed name lookup - disconnected path", "=error", "-13")))
 	// (third hunt) the name of a disconnected path is logged without its leading slash; with the attach_disconnected flag
 	// (which the record makes aa-log set) the kernel matches it against the policy below the root: /apparmor/.null
 	n++
